@@ -125,6 +125,25 @@ def directory_postcondition(run, P):
             return [('', ('prefix_incl', args[1][3][0]), [])]
         if base == 'new_unchecked' and isinstance(a0, tuple) and a0[0] == 'prefix_incl':
             return [('', a0, [])]
+        if base == 'iter' and isinstance(a0, tuple) and a0[0] == 'bytes':
+            return [('', ('iter', a0), [])]
+        if base in ('rposition', 'position') and isinstance(a0, tuple) and a0[0] == 'iter' and len(args) == 2:
+            # search for the last / first element satisfying a closure of the form |&b| b == CONST: Some(i) with bytes[i] == CONST, 0 <= i < len
+            clo = args[1]
+            cn = clo[1] if isinstance(clo, tuple) and clo and clo[0] in ('closure', 'adt') else None
+            cb = P.bodies.get(cn) if isinstance(cn, str) else None
+            ct = terms.Terms(cb).ret() if cb else None
+            c = None
+            if ct and ct[0] == 'binop' and ct[1] == 'Eq':
+                for x, y in ((ct[2], ct[3]), (ct[3], ct[2])):
+                    if y[0] == 'int' and any(n[0] == 'arg' and n[1] == 2 for n in terms.walk(x)):
+                        c = y[1]
+            if c is None:
+                return None
+            i = sym(p.fresh('i'))
+            p.facts += [i, a0[1][2] - i - 1]
+            return [(f'{base}: found', ('adt', 'std::option::Option', 1, (i,)), [(('byte_at', i, c), True)]),
+                    (f'{base}: not found', ('adt', 'std::option::Option', 0, ()), [])]
         if base == 'checked_sub' and len(args) == 2 and isinstance(a0, Aff) and isinstance(args[1], Aff):
             return [('checked_sub: Some', ('adt', 'std::option::Option', 1, (a0 - args[1],)), [(('cmp', 'Ge', a0, args[1]), True)]),
                     ('checked_sub: None', ('adt', 'std::option::Option', 0, ()), [(('cmp', 'Ge', a0, args[1]), False)])]
@@ -279,6 +298,22 @@ def main(run):
     ctx = sites.Ctx(P)
     prefix_lemma(run, ctx)
     directory_postcondition(run, P)
+    # which "/" : the LAST one.  A hand-written backward scan is decided by Engine S in mirror mode; a search with Iterator::rposition is the
+    # last match by definition (a forward `position` is rejected)
+    from ..symex import loop_info
+    from .. import segscan
+    db = P.body('common::path::PathImpl::directory')
+    if db is not None:
+        calls = [mir.callee(t) or '' for _, t in P.calls(db)]
+        if loop_info(db):
+            r = segscan.run_directory(P)
+            run.cov['directory_scan_states'] = r['stats'].get('configs', 0)
+            for kind, msg, where, wit in r['findings']:
+                run.violation(f'directory|scan|{kind}|{msg[:50]}', f'{where[1] if where else ""}:{where[2] if where else ""} PathImpl::directory: {r["what"]} — {msg}' + (f'; e.g. on the path {wit!r}' if wit else ''))
+        elif any(c.endswith('::rposition') for c in calls) and not any(c.endswith('Iterator>::position') or c.endswith('::find') for c in calls):
+            run.cov['directory_scan_states'] = 0
+        else:
+            run.violation('directory|last', f'{P.where(db)} PathImpl::directory: cannot establish that the "/" it cuts after is the LAST one (neither a backward scan nor rposition)')
     base_effect(run, P)
     scratch = Run('C16-sites', run.tier, '__none__')
     _, res = sites.check(scratch, P, 'C16')
